@@ -41,7 +41,7 @@ def Compat (sh : Labels → Nat) : VExpr → Prop
     (∀ a b, sig a = sig b → sh a = sh b) ∧ (∀ x ro s, f x ro = some s → sh s.1 = sh x.1) ∧ Compat sh l ∧ Compat sh r
   | .append l r => Compat sh l ∧ Compat sh r
 
-theorem groupAgg_shard (sh : Labels → Nat) (key : Labels → Labels) (op : List Int → Int)
+theorem groupAgg_shard (sh : Labels → Nat) (key : Labels → Labels) (op : List Series → Int)
     (hk : ∀ l, sh (key l) = sh l) (i : Nat) (v : Vec) :
     groupAgg key op (shardOf sh i v) = shardOf sh i (groupAgg key op v) := by
   unfold groupAgg shardOf
@@ -59,7 +59,6 @@ theorem groupAgg_shard (sh : Labels → Nat) (key : Labels → Labels) (op : Lis
   have hki : sh k = i := by simpa using (List.mem_filter.mp hk').2
   congr 2
   rw [List.filter_filter]
-  congr 1
   apply List.filter_congr
   intro s _
   by_cases h : key s.1 = k
@@ -247,6 +246,15 @@ inductive FExpr where
   | bin (op : String) (on : Bool) (L : List String) (arith : Bool) (f : Int → Option Int → Option Int) (l r : FExpr)
   /-- `l or on(L) r` / `l or ignoring(L) r` -/
   | or_ (on : Bool) (L : List String) (l r : FExpr)
+  /-- many-to-one arithmetic `many op on/ignoring(L) group_left(inc) one` (`manyLeft = true`) or
+      `one op on/ignoring(L) group_right(inc) many` (`false`): every series of the "many" side is
+      combined with the series of the "one" side that has the same signature; the result carries
+      the many side's labels without the metric name, the `inc` labels taken from the one side -/
+  | binMany (op : String) (on : Bool) (L inc : List String) (manyLeft : Bool) (f : Int → Int → Option Int)
+      (many one : FExpr)
+  /-- `histogram_quantile(φ, e)`: buckets grouped by every label but `le` (metric name dropped);
+      `f` computes the quantile from the member series (their `le` labels and values) -/
+  | histQ (phi : String) (f : List Series → Int) (e : FExpr)
 
 def plainFn (name : String) : Bool :=
   !(name = "label_join" || name = "label_replace" || name = "absent_over_time" || name = "absent" ||
@@ -265,6 +273,11 @@ def FExpr.WF : FExpr → Prop
   | .aggWithout op _ _ e => op ≠ "count_values" ∧ e.WF
   | .bin _ _ _ _ _ l r => l.WF ∧ r.WF
   | .or_ _ _ l r => l.WF ∧ r.WF
+  | .histQ _ _ e => e.WF
+  | .binMany _ on L inc _ _ many one =>
+    -- the parser rejects a label in both `on` and `group_x`; with `ignoring` only labels of `L`
+    -- can differ between the sides, so only those are meaningful to copy
+    (if on then ∀ i ∈ inc, i ∉ L else ∀ i ∈ inc, i ∈ L) ∧ many.WF ∧ one.WF
 
 def FExpr.toExpr : FExpr → Expr
   | .sel t _ => .sel t
@@ -273,17 +286,25 @@ def FExpr.toExpr : FExpr → Expr
   | .aggWithout op L _ e => .agg op .without L none e.toExpr
   | .bin op on L _ _ l r => .bin op (if on then .on else .ignoring) L l.toExpr r.toExpr
   | .or_ on L l r => .bin "or" (if on then .on else .ignoring) L l.toExpr r.toExpr
+  | .histQ phi _ e => .call "histogram_quantile" [.num phi, e.toExpr]
+  | .binMany op on L _ manyLeft _ many one =>
+    if manyLeft then .bin op (if on then .on else .ignoring) L many.toExpr one.toExpr
+    else .bin op (if on then .on else .ignoring) L one.toExpr many.toExpr
 
 def FExpr.toV : FExpr → VExpr
   | .sel _ p => .sel p
   | .fn _ drop f e => .fn (fun l v => (f v).map fun v' => (if drop then dropName l else l, v')) e.toV
-  | .aggBy _ L f e => .agg (keyBy L) f e.toV
-  | .aggWithout _ L f e => .agg (keyWithout L) f e.toV
+  | .aggBy _ L f e => .agg (keyBy L) (fun ms => f (ms.map (·.2))) e.toV
+  | .aggWithout _ L f e => .agg (keyWithout L) (fun ms => f (ms.map (·.2))) e.toV
   | .bin _ on L arith f l r =>
     .binL (sigOf on L)
       (fun x ro => (f x.2 (ro.map (·.2))).map fun v => (if arith then sigOf on L x.1 else x.1, v)) l.toV r.toV
   | .or_ on L l r =>
     .append l.toV (.binL (sigOf on L) (fun x ro => match ro with | none => some x | some _ => none) r.toV l.toV)
+  | .histQ _ f e => .agg (keyWithout ["le"]) f e.toV
+  | .binMany _ on L inc _ f many one =>
+    .binL (sigOf on L)
+      (fun x ro => ro.bind fun r => (f x.2 r.2).map fun v => (withInc inc (dropName x.1) r.1, v)) many.toV one.toV
 
 /-- grouping scopes in the analyzer's pre-order -/
 def FExpr.scopes : FExpr → List (List String × Bool)
@@ -293,6 +314,9 @@ def FExpr.scopes : FExpr → List (List String × Bool)
   | .aggWithout _ L _ e => (L, false) :: e.scopes
   | .bin _ on L _ _ l r => binScope on L :: (l.scopes ++ r.scopes)
   | .or_ on L l r => binScope on L :: (l.scopes ++ r.scopes)
+  | .histQ _ _ e => (["le"], false) :: e.scopes
+  | .binMany _ on L _ manyLeft _ many one =>
+    binScope on L :: (if manyLeft then many.scopes ++ one.scopes else one.scopes ++ many.scopes)
 
 def foldScopes (a : Analysis) (scs : List (List String × Bool)) : Analysis :=
   scs.foldl (fun a sc => scopeToLabels a sc.1 sc.2) a
@@ -308,6 +332,11 @@ theorem isScalar_fragment : ∀ (e : FExpr), e.WF → isScalar e.toExpr = false
   | .aggWithout _ _ _ _, _ => rfl
   | .bin _ _ _ _ _ l r, hwf => by simp [FExpr.toExpr, isScalar, isScalar_fragment l hwf.1]
   | .or_ _ _ l r, hwf => by simp [FExpr.toExpr, isScalar, isScalar_fragment l hwf.1]
+  | .histQ _ _ _, _ => by simp [FExpr.toExpr, isScalar]
+  | .binMany _ _ _ _ manyLeft _ many one, hwf => by
+    cases manyLeft
+    · simp [FExpr.toExpr, isScalar, isScalar_fragment one hwf.2.2]
+    · simp [FExpr.toExpr, isScalar, isScalar_fragment many hwf.2.1]
 
 theorem foldScopes_append (a : Analysis) (s1 s2 : List (List String × Bool)) :
     foldScopes a (s1 ++ s2) = foldScopes (foldScopes a s1) s2 := by
@@ -359,6 +388,19 @@ theorem walk_fragment : ∀ (e : FExpr), e.WF → ∀ st : St, st.ok = true →
   | .or_ on L l r, hwf, st, hok => by
     simp only [FExpr.toExpr, FExpr.scopes]
     exact walk_bin "or" on L l r hwf.1 hwf.2 (walk_fragment l hwf.1) (walk_fragment r hwf.2) st hok
+  | .histQ phi _ e, hwf, st, hok => by
+    simp only [FExpr.toExpr, walk, hok, FExpr.scopes, foldScopes, List.foldl_cons]
+    simp only [not_true_eq_false, if_false, String.reduceEq, or_self, if_true, walkList, walk]
+    rw [walk_fragment e hwf _ (by simp [hok])]
+    simp [foldScopes, hok]
+  | .binMany op on L inc manyLeft _ many one, hwf, st, hok => by
+    cases manyLeft with
+    | true =>
+      simp only [FExpr.toExpr, FExpr.scopes, if_true]
+      exact walk_bin op on L many one hwf.2.1 hwf.2.2 (walk_fragment many hwf.2.1) (walk_fragment one hwf.2.2) st hok
+    | false =>
+      simp only [FExpr.toExpr, FExpr.scopes, Bool.false_eq_true, if_false]
+      exact walk_bin op on L one many hwf.2.2 hwf.2.1 (walk_fragment one hwf.2.2) (walk_fragment many hwf.2.1) st hok
 
 theorem analyze_fragment (e : FExpr) (hwf : e.WF) :
     analyze e.toExpr = foldScopes ⟨none, false⟩ e.scopes := by
@@ -571,6 +613,62 @@ def Scoped (K : List String) (by_ : Bool) : FExpr → Prop
     (NameSafe K by_ ∧ if by_ then ∀ k ∈ K, k ∉ L else ∀ x ∈ L, x ∈ K) ∧ Scoped K by_ e
   | .bin _ on L _ _ l r => BinOK K by_ on L ∧ Scoped K by_ l ∧ Scoped K by_ r
   | .or_ on L l r => BinOK K by_ on L ∧ Scoped K by_ l ∧ Scoped K by_ r
+  | .histQ _ _ e =>
+    (NameSafe K by_ ∧ if by_ then ∀ k ∈ K, k ∉ ["le"] else ∀ x ∈ ["le"], x ∈ K) ∧ Scoped K by_ e
+  | .binMany _ on L inc _ _ many one =>
+    (BinOK K by_ on L ∧ NameSafe K by_ ∧ (if on then ∀ i ∈ inc, i ∉ L else ∀ i ∈ inc, i ∈ L)) ∧
+      Scoped K by_ many ∧ Scoped K by_ one
+
+/-- labels copied by `group_left` / `group_right` are never among the hashed ones -/
+theorem proj_withInc {K : List String} {by_ : Bool} {inc : List String}
+    (h : ∀ i ∈ inc, shardByLabel K i by_ = false) (l r : Labels) :
+    projection K by_ (withInc inc l r) = projection K by_ l := by
+  unfold projection withInc
+  rw [List.filter_append]
+  have h2 : (r.filter fun x => inc.contains x.1).filter (fun x => shardByLabel K x.1 by_) = [] := by
+    apply List.filter_eq_nil_iff.mpr
+    intro a ha
+    have := (List.mem_filter.mp ha).2
+    simp [h a.1 (List.contains_iff_mem.mp this)]
+  rw [h2, List.append_nil]
+  apply filter_filter_of_imp
+  intro a _ ha
+  cases hc : inc.contains a.1 with
+  | false => rfl
+  | true => rw [h a.1 (List.contains_iff_mem.mp hc)] at ha; cases ha
+
+theorem inc_not_hashed {K : List String} {by_ on : Bool} {L inc : List String} (hb : BinOK K by_ on L)
+    (hw : if on then ∀ i ∈ inc, i ∉ L else ∀ i ∈ inc, i ∈ L) : ∀ i ∈ inc, shardByLabel K i by_ = false := by
+  intro i hi
+  unfold BinOK at hb
+  unfold shardByLabel
+  cases on with
+  | true =>
+    simp only [if_true] at hb hw
+    obtain ⟨hby, hk⟩ := hb
+    subst hby
+    have : ¬ i ∈ K := fun hk' => hw i hi (hk i hk')
+    simp [this]
+  | false =>
+    simp only [Bool.false_eq_true, if_false] at hb hw
+    cases by_ with
+    | true =>
+      simp only [if_true] at hb
+      have : ¬ i ∈ K := fun hk' => hb.1 i hk' (hw i hi)
+      simp [this]
+    | false =>
+      simp only [Bool.false_eq_true, if_false] at hb
+      have : i ∈ K := hb.1 i (hw i hi)
+      simp [this]
+
+theorem compat_histQ (hash : Labels → Nat) (total : Nat) (K : List String) (by_ : Bool)
+    (h : NameSafe K by_ ∧ if by_ then ∀ k ∈ K, k ∉ ["le"] else ∀ x ∈ ["le"], x ∈ K) (l : Labels) :
+    shReal hash total K by_ (keyWithout ["le"] l) = shReal hash total K by_ l := by
+  obtain ⟨hn, hk⟩ := h
+  unfold shReal
+  cases by_ with
+  | true => rw [proj_keyWithout_by (by simpa using hk) (by simpa [NameSafe] using hn)]
+  | false => rw [proj_keyWithout_without (by simpa using hk) (by simpa [NameSafe] using hn)]
 
 theorem compat_of_scoped (hash : Labels → Nat) (total : Nat) (K : List String) (by_ : Bool) :
     ∀ e : FExpr, Scoped K by_ e → Compat (shReal hash total K by_) e.toV
@@ -633,6 +731,29 @@ theorem compat_of_scoped (hash : Labels → Nat) (total : Nat) (K : List String)
       cases ro with
       | none => simp at hs; subst hs; rfl
       | some _ => simp at hs
+  | .histQ _ f e, h => ⟨compat_histQ hash total K by_ h.1, compat_of_scoped hash total K by_ e h.2⟩
+  | .binMany _ on L inc _ f many one, h => by
+    obtain ⟨⟨hb, hn, hw⟩, hm, ho⟩ := h
+    refine ⟨?_, ?_, compat_of_scoped hash total K by_ many hm, compat_of_scoped hash total K by_ one ho⟩
+    · intro a b hab
+      unfold shReal
+      rw [← proj_sigOf hb a, hab, proj_sigOf hb b]
+    · intro x ro s hs
+      cases ro with
+      | none => simp at hs
+      | some r =>
+        simp only [Option.bind_some] at hs
+        cases hf : f x.2 r.2 with
+        | none => simp [hf] at hs
+        | some v =>
+          simp only [hf, Option.map_some, Option.some.injEq] at hs
+          subst hs
+          unfold shReal
+          simp only
+          rw [proj_withInc (inc_not_hashed hb hw)]
+          cases by_ with
+          | true => rw [proj_dropName_by (by simpa [NameSafe] using hn)]
+          | false => rw [proj_dropName_without (by simpa [NameSafe] using hn)]
 
 theorem binOK_of_inv {K : List String} {by_ on : Bool} {L : List String} {rest : List (List String × Bool)}
     (h : ScopeInv ⟨some K, by_⟩ (binScope on L :: rest)) : BinOK K by_ on L := by
@@ -668,45 +789,72 @@ theorem scopeInv_sub {K : List String} {by_ : Bool} {seen sub : List (List Strin
   | false => simp only [Bool.false_eq_true, if_false] at h ⊢; exact fun sc hsc => h sc (hsub sc hsc)
 
 theorem scoped_of_inv (K : List String) (by_ : Bool) (hn : NameSafe K by_) :
-    ∀ e : FExpr, ScopeInv ⟨some K, by_⟩ e.scopes → Scoped K by_ e
-  | .sel _ _, _ => trivial
-  | .fn _ _ _ e, h => ⟨fun _ => hn, scoped_of_inv K by_ hn e h⟩
-  | .aggBy _ L _ e, h => by
+    ∀ e : FExpr, e.WF → ScopeInv ⟨some K, by_⟩ e.scopes → Scoped K by_ e
+  | .sel _ _, _, _ => trivial
+  | .fn _ _ _ e, hwf, h => ⟨fun _ => hn, scoped_of_inv K by_ hn e hwf.2 h⟩
+  | .aggBy _ L _ e, hwf, h => by
     unfold ScopeInv at h
     simp only [FExpr.scopes] at h
     cases by_ with
     | true =>
       simp only [if_true] at h
-      refine ⟨⟨rfl, (h (L, true) (by simp)).1 rfl⟩, scoped_of_inv K true hn e ?_⟩
+      refine ⟨⟨rfl, (h (L, true) (by simp)).1 rfl⟩, scoped_of_inv K true hn e hwf.2 ?_⟩
       unfold ScopeInv; simp only [if_true]
       exact fun sc hsc => h sc (List.mem_cons_of_mem _ hsc)
     | false =>
       simp only [Bool.false_eq_true, if_false] at h
       have := (h (L, true) (by simp)).1
       cases this
-  | .aggWithout _ L _ e, h => by
+  | .aggWithout _ L _ e, hwf, h => by
     unfold ScopeInv at h
     simp only [FExpr.scopes] at h
     cases by_ with
     | true =>
       simp only [if_true] at h
-      refine ⟨⟨hn, by simpa using (h (L, false) (by simp)).2 rfl⟩, scoped_of_inv K true hn e ?_⟩
+      refine ⟨⟨hn, by simpa using (h (L, false) (by simp)).2 rfl⟩, scoped_of_inv K true hn e hwf.2 ?_⟩
       unfold ScopeInv; simp only [if_true]
       exact fun sc hsc => h sc (List.mem_cons_of_mem _ hsc)
     | false =>
       simp only [Bool.false_eq_true, if_false] at h
-      refine ⟨⟨hn, by simpa using (h (L, false) (by simp)).2⟩, scoped_of_inv K false hn e ?_⟩
+      refine ⟨⟨hn, by simpa using (h (L, false) (by simp)).2⟩, scoped_of_inv K false hn e hwf.2 ?_⟩
       unfold ScopeInv; simp only [Bool.false_eq_true, if_false]
       exact fun sc hsc => h sc (List.mem_cons_of_mem _ hsc)
-  | .bin _ on L _ _ l r, h => by
+  | .bin _ on L _ _ l r, hwf, h => by
     simp only [FExpr.scopes] at h
     exact ⟨binOK_of_inv h,
-      scoped_of_inv K by_ hn l (scopeInv_sub h (fun sc hsc => List.mem_cons_of_mem _ (List.mem_append_left _ hsc))),
-      scoped_of_inv K by_ hn r (scopeInv_sub h (fun sc hsc => List.mem_cons_of_mem _ (List.mem_append_right _ hsc)))⟩
-  | .or_ on L l r, h => by
+      scoped_of_inv K by_ hn l hwf.1 (scopeInv_sub h (fun sc hsc => List.mem_cons_of_mem _ (List.mem_append_left _ hsc))),
+      scoped_of_inv K by_ hn r hwf.2 (scopeInv_sub h (fun sc hsc => List.mem_cons_of_mem _ (List.mem_append_right _ hsc)))⟩
+  | .or_ on L l r, hwf, h => by
     simp only [FExpr.scopes] at h
     exact ⟨binOK_of_inv h,
-      scoped_of_inv K by_ hn l (scopeInv_sub h (fun sc hsc => List.mem_cons_of_mem _ (List.mem_append_left _ hsc))),
-      scoped_of_inv K by_ hn r (scopeInv_sub h (fun sc hsc => List.mem_cons_of_mem _ (List.mem_append_right _ hsc)))⟩
+      scoped_of_inv K by_ hn l hwf.1 (scopeInv_sub h (fun sc hsc => List.mem_cons_of_mem _ (List.mem_append_left _ hsc))),
+      scoped_of_inv K by_ hn r hwf.2 (scopeInv_sub h (fun sc hsc => List.mem_cons_of_mem _ (List.mem_append_right _ hsc)))⟩
+  | .histQ _ _ e, hwf, h => by
+    unfold ScopeInv at h
+    simp only [FExpr.scopes] at h
+    cases by_ with
+    | true =>
+      simp only [if_true] at h
+      refine ⟨⟨hn, by simpa using (h (["le"], false) (by simp)).2 rfl⟩, scoped_of_inv K true hn e hwf ?_⟩
+      unfold ScopeInv; simp only [if_true]
+      exact fun sc hsc => h sc (List.mem_cons_of_mem _ hsc)
+    | false =>
+      simp only [Bool.false_eq_true, if_false] at h
+      refine ⟨⟨hn, by simpa using (h (["le"], false) (by simp)).2⟩, scoped_of_inv K false hn e hwf ?_⟩
+      unfold ScopeInv; simp only [Bool.false_eq_true, if_false]
+      exact fun sc hsc => h sc (List.mem_cons_of_mem _ hsc)
+  | .binMany _ on L inc manyLeft _ many one, hwf, h => by
+    simp only [FExpr.scopes] at h
+    refine ⟨⟨binOK_of_inv h, hn, hwf.1⟩, ?_, ?_⟩
+    · apply scoped_of_inv K by_ hn many hwf.2.1 (scopeInv_sub h ?_)
+      intro sc hsc
+      cases manyLeft
+      · exact List.mem_cons_of_mem _ (by simp [hsc])
+      · exact List.mem_cons_of_mem _ (by simp [hsc])
+    · apply scoped_of_inv K by_ hn one hwf.2.2 (scopeInv_sub h ?_)
+      intro sc hsc
+      cases manyLeft
+      · exact List.mem_cons_of_mem _ (by simp [hsc])
+      · exact List.mem_cons_of_mem _ (by simp [hsc])
 
 end Thanos.Sharding
